@@ -492,6 +492,13 @@ def run(ctx):
     sc = ctx.s("sched")
     feat = C.draw_features(ctx)
     feat["cond_numeric"] = cfg.chance(1, 4)
+    # the oracle is isolation (same call alone), not the reference, so constructs the library evaluates wrongly
+    # (disjunctive / universal preconditions) are legitimate workload: purity must hold for them too
+    nested = cfg.draw(5)
+    if nested == 0:
+        feat["or_pre"] = True
+    elif nested == 1:
+        feat["forall_pre"] = True
     W = C.World(ctx, feat)
     nthreads = [1, 2, 2, 3][cfg.draw(4)]
     _, trail = C.ref_walk(ctx, W, 3, t)
